@@ -103,4 +103,21 @@ GenC11Init ==
       /\ InitWith(Mk(p, k, codec, http, <<"none", <<>>>>, 0, <<>>, 0, rh, <<M(1, 3)>>, sh, st,
                      SubSeq(<<M(101, 3), M(102, 2)>>, 1, nresp), o))
 GenC11Spec == GenC11Init /\ [][FALSE]_vars
+
+(* C05, converse: a conformant foreign server (the reference codec) under every combination of the encoder's
+   freedoms; the real client must decode to the values the program supplied *)
+Choice(pb, lh, em, om, od, ho, lk, mk, xj) ==
+  [PadBin |-> pb, LowerHex |-> lh, EscapeMore |-> em, OmitMessage |-> om, OmitDetails |-> od, HeadersOnly |-> ho,
+   LowerKeys |-> lk, Mask |-> mk, ExtraJSON |-> xj, Encoding |-> ""]
+GenPeerInit ==
+  \E p \in Protos, k \in Kinds, codec \in {"proto", "json"}, pb \in BOOLEAN, lh \in BOOLEAN, om \in BOOLEAN, ho \in BOOLEAN,
+     lk \in BOOLEAN, mk \in {0, 1, 2, 3}, flip \in BOOLEAN,
+     o \in {OK, Err(5, "pct", 2, MetaE, 1), Err(16, "nonascii", 0, <<>>, 0), Err(9, "blanks", 1, MetaE, 2), Plain("ctl", 0)} :
+    LET c == Choice(pb, lh, flip, om, ~flip, ho, lk, mk, flip) IN
+    /\ (k \in {"unary", "client"} => o.after = 0)
+    /\ InitWith(Mk(p, k, codec, 2, <<"gzip", <<>>>>, 0, <<>>, 0, HdrA,
+                   IF k \in {"unary", "server"} THEN <<M(1, 3)>> ELSE <<M(1, 3), M(2, 0)>>, HdrB, TrlB,
+                   IF k \in {"unary", "client"} THEN <<M(101, 3)>> ELSE <<M(101, 3), M(102, 0)>>, o)
+                @@ [peer |-> "server", choices |-> c])
+GenPeerSpec == GenPeerInit /\ [][FALSE]_vars
 =============================================================================
